@@ -21,8 +21,10 @@ ASSUMPTIONS = [
     "one literal per program; the value observed is the value of the program's last statement in a fresh interpreter",
     "binding region: spellings of the documented grammar; integer kinds and f32/f64 as suffix/annotation on integer, float, "
     "scientific and based literals; cross-family annotations (r64/c64/string/bool, any annotation on a rational, integer kind "
-    "on a fractional literal), fractional exponents (irrational value), complex literals whose parts are not plain "
-    "integers/floats, and based literals with underscores (not in the documented grammar) are advisory",
+    "on a fractional literal), fractional exponents (irrational value), complex literals whose parts are scientific literals, "
+    "and based literals with underscores (not in the documented grammar) are advisory; complex literals with a based real part "
+    "(or a 0d imaginary part) or a dyadic rational real part are binding: they are submitted with the model case of the decimal "
+    "spelling of the same value",
     "either sign of zero is accepted for a literal denoting 0; overflow to infinity is accepted exactly from the IEEE "
     "round-to-nearest threshold (2^1024 - 2^970 for f64) on",
     "rejection = an error value from interpret() or a parse error; error kinds are not compared",
@@ -476,6 +478,39 @@ def gen_complex(tier, rng):
     yield cplx(False, b_rat("1", "2"), "+", b_int("1"), "i", form="complex", cls="rational-part")
     yield cplx(False, b_sci("1", "5", "e", "", "1"), "+", b_int("1"), "i", form="complex", cls="sci-part")
     yield cplx(False, b_based("0x", "10"), "+", b_int("1"), "i", form="complex", cls="based-part")
+    # complex literals whose real part is a based literal (and whose imaginary part may be a `0d` literal): submitted with
+    # the model case of the DECIMAL spelling of the same value (what a based literal denotes is settled by the based-literal
+    # theorems; the expectation for complex literals is stated for plain parts), so that the value is binding
+    for _ in range(40 if tier == "quick" else 400):
+        pfx, base, alphabet = rng.choice([("0x", 16, "0123456789abcdefABCDEF"), ("0o", 8, "01234567"), ("0b", 2, "01"), ("0d", 10, "0123456789")])
+        w = digits(rng, rng.choice([1, 2, 3, 6, 12 if base > 2 else 40]), first_nonzero=True, alphabet=alphabet)
+        if int(w, base) >= 2 ** 53:
+            continue
+        imw = digits(rng, rng.choice([1, 2, 5]), first_nonzero=True)
+        im_based = rng.random() < 0.3
+        isg, u = rng.choice(["+", "-"]), rng.choice(["i", "j"])
+        c = cplx(False, b_int(str(int(w, base))), isg, b_int(imw), u, form="complex", cls="based-part-as-decimal")
+        c["impl"] = dict(src=pfx + w + isg + ("0d" if im_based else "") + imw + u)
+        yield c
+    # a rational real part with a power-of-two denominator, submitted as its (exact) decimal expansion
+    from fractions import Fraction
+    from decimal import Decimal
+    for _ in range(12 if tier == "quick" else 120):
+        d = 2 ** rng.randint(1, 6); n = rng.randint(1, 200)
+        fr = Fraction(n, d)
+        if fr.denominator == 1:
+            continue
+        dec = format(Decimal(fr.numerator) / Decimal(fr.denominator), "f")
+        w, f = dec.split(".")
+        imw = digits(rng, rng.choice([1, 2]), first_nonzero=True); isg, u = rng.choice(["+", "-"]), rng.choice(["i", "j"])
+        c = cplx(False, b_float(w, f), isg, b_int(imw), u, form="complex", cls="rational-part-as-decimal")
+        c["impl"] = dict(src="%d/%d%s%s%s" % (n, d, isg, imw, u))
+        yield c
+    for _ in range(10 if tier == "quick" else 100):
+        imw = digits(rng, rng.choice([1, 2, 5]), first_nonzero=True); u = rng.choice(["i", "j"])
+        c = imag(False, b_int(imw), u, form="imaginary", cls="based-part-as-decimal")
+        c["impl"] = dict(src="0d" + imw + u)
+        yield c
 
 
 def gen_malformed(tier, rng):
